@@ -8,15 +8,18 @@ JSON encoding
 -------------
 key
     ``{"f": "tuple", "k": [elem, ...]}``   region / full subscript; elem = int | {"s": [start, stop]} |
+                                            {"s": [start, stop, step]} (any python slice: steps, negative
+                                            steps, negative bounds, bounds beyond the extent) |
                                             {"l": [i, ...]} (python list) | {"a": [i, ...]} (1-D ndarray);
                                             optional ``"np": true`` = ints are passed as numpy.int64
     ``{"f": "subs", "rows": [[...], ...]}`` p x M array of subscripts (distinct rows)
     ``{"f": "lin", "i": int}`` · ``{"f": "linlist", "i": [...]}`` · ``{"f": "linarr", "i": [...]}`` ·
-    ``{"f": "linslice", "s": [start, stop]}``   linear index forms (first index fastest)
+    ``{"f": "linslice", "s": [start, stop(, step)]}``   linear index forms (first index fastest)
 rhs
     ``{"r": "scalar", "v": float, "int": bool}``          scalar (python float, python int when "int",
                                                            numpy.float64 when "np")
     ``{"r": "vec", "v": [...]}``                           one value per subscript row / linear index
+                                                           ("idt": true = held in an int64 array; also for "array")
     ``{"r": "array", "v": [...F-order...], "as": "ndarray"|"tensor", "sp": "sorted"|"reverse"}``
                                                            array of the region's kept-mode shape
 """
@@ -50,6 +53,31 @@ def elem_kind(e) -> str:
     return "arr"
 
 
+def slice_of(e) -> slice:
+    """python slice of a slice element / linear slice key ({"s": [start, stop]} or {"s": [start, stop, step]})"""
+    s = e["s"]
+    return slice(s[0], s[1], s[2] if len(s) > 2 else None)
+
+
+def slice_plain(e) -> bool:
+    """unit step and no negative bound: the only slice form the docstring examples show"""
+    sl = slice_of(e)
+    return sl.step in (None, 1) and (sl.start is None or sl.start >= 0) and (sl.stop is None or sl.stop >= 0)
+
+
+def slice_classes(e, cur: Optional[int] = None) -> List[str]:
+    """labels: stepped / reversed / negative-bound / beyond-extent (clipped) / plain"""
+    sl = slice_of(e)
+    out = []
+    if sl.step is not None and sl.step < 0:
+        out.append("slice-reversed")
+    if sl.step not in (None, 1, -1):
+        out.append("slice-stepped")
+    if (sl.start is not None and sl.start < 0) or (sl.stop is not None and sl.stop < 0):
+        out.append("slice-negative-bound")
+    return out or ["slice-plain"]
+
+
 def elem_list(e) -> List[int]:
     return list(e["l"]) if "l" in e else list(e["a"])
 
@@ -60,11 +88,19 @@ def elem_extent(e, cur: Optional[int]) -> int:
     if k == "int":
         return e + 1 if e >= 0 else (cur or 0)
     if k == "slice":
-        stop = e["s"][1]
-        if stop is None:
-            assert cur is not None, "unbounded slice on a new mode"
+        sl = slice_of(e)
+        if slice_plain(e):
+            if sl.stop is None:
+                assert cur is not None, "unbounded slice on a new mode"
+                return cur
+            return sl.stop
+        # general slice: a negative step, a negative stop or no stop never reach beyond the present extent (python
+        # clips); a positive step with a stop beyond it addresses start, start+step, ... < stop in the grown mode
+        assert cur is not None, "general slice on a new mode"
+        if (sl.step is not None and sl.step < 0) or sl.stop is None or sl.stop <= cur:
             return cur
-        return stop
+        idx = range(sl.stop)[sl]
+        return max(cur, idx[-1] + 1) if len(idx) else cur
     return max(elem_list(e)) + 1
 
 
@@ -96,7 +132,7 @@ def elem_indices(e, old: Optional[int], new: int) -> List[int]:
     if k == "int":
         return [e if e >= 0 else e + old]
     if k == "slice":
-        return list(range(new)[slice(e["s"][0], e["s"][1])])
+        return list(range(new)[slice_of(e)])
     return elem_list(e)
 
 
@@ -122,7 +158,7 @@ def lin_positions(shape: Sequence[int], key) -> List[int]:
     if f in ("linlist", "linarr"):
         return [i + n if i < 0 else i for i in key["i"]]
     if f == "linslice":
-        return list(range(n)[slice(key["s"][0], key["s"][1])])
+        return list(range(n)[slice_of(key)])
     raise ValueError(f)
 
 
@@ -134,14 +170,14 @@ def lin_to_sub(i: int, shape: Sequence[int]) -> List[int]:
     return out
 
 
-def positions(shape: Sequence[int], key) -> List[List[int]]:
-    """All addressed subscripts (of the grown shape), in the order the values of a vector / F-ordered region
-    right-hand side correspond to them."""
+def positions(shape: Sequence[int], key, write: bool = True) -> List[List[int]]:
+    """All addressed subscripts (of the grown shape when writing; a read never grows, slice bounds beyond the extent are
+    clipped), in the order the values of a vector / F-ordered region right-hand side correspond to them."""
     f = key["f"]
     if f == "subs":
         return [list(r) for r in key["rows"]]
     if f == "tuple":
-        new = grown_shape(shape, key)
+        new = grown_shape(shape, key) if write else list(shape)
         idx = region_indices(shape, key, new)
         rev = itertools.product(*[ix for ix in reversed(idx)])
         return [list(reversed(r)) for r in rev]
@@ -212,7 +248,7 @@ def py_key(key):
             if k == "int":
                 out.append(np.int64(e) if key.get("np") else int(e))
             elif k == "slice":
-                out.append(slice(e["s"][0], e["s"][1]))
+                out.append(slice_of(e))
             elif k == "list":
                 out.append([int(i) for i in e["l"]])
             else:
@@ -228,7 +264,7 @@ def py_key(key):
     if f == "linarr":
         return np.array(key["i"], dtype=int)
     if f == "linslice":
-        return slice(key["s"][0], key["s"][1])
+        return slice_of(key)
     raise ValueError(f)
 
 
@@ -243,15 +279,16 @@ def py_rhs(rhs, holder: str, region_shape: Optional[Sequence[int]] = None):
         if rhs.get("int"):
             return int(rhs["v"])
         return np.float64(rhs["v"]) if rhs.get("np") else float(rhs["v"])
+    dt = np.int64 if rhs.get("idt") else float
     if r == "vec":
-        v = np.array(rhs["v"], dtype=float)
+        v = np.array(rhs["v"], dtype=float).astype(dt)
         if holder == "S":
             return v.reshape(-1, 1)
-        return [float(x) for x in v] if rhs.get("as") == "list" else v
+        return [x.item() for x in v] if rhs.get("as") == "list" else v
     if r == "array":
         A = arr_F(region_shape, rhs["v"])
         if holder == "T":
-            B = np.array(A, order="F")
+            B = np.array(A, order="F").astype(dt, order="F")
             return ttb.tensor(B, tuple(region_shape)) if rhs.get("as") == "tensor" else B
         nz = [(list(s), float(A[s])) for s in _subs_F(A.shape) if A[s] != 0]
         if rhs.get("sp") == "reverse":
@@ -259,7 +296,7 @@ def py_rhs(rhs, holder: str, region_shape: Optional[Sequence[int]] = None):
         if not nz:
             return ttb.sptensor(shape=tuple(region_shape))
         subs = np.array([s for s, _ in nz], dtype=int).reshape(len(nz), len(region_shape))
-        vals = np.array([v for _, v in nz], dtype=float).reshape(-1, 1)
+        vals = np.array([v for _, v in nz], dtype=float).astype(dt).reshape(-1, 1)
         return ttb.sptensor(subs, vals, tuple(region_shape))
     raise ValueError(r)
 
@@ -271,7 +308,7 @@ def _subs_F(shape):
 
 def as_subs(shape: Sequence[int], key, rhs=None):
     """The same addressed positions (and values) as a p x M subscript-array operation."""
-    pos = positions(shape, key)
+    pos = positions(shape, key, write=rhs is not None)
     k2 = dict(f="subs", rows=pos)
     if rhs is None:
         return k2, None
@@ -284,9 +321,9 @@ def bounded(shape: Sequence[int], key):
     """Region key with every slice given explicit start and stop (same positions)."""
     out = []
     for m, e in enumerate(key["k"]):
-        if elem_kind(e) == "slice":
+        if elem_kind(e) == "slice" and slice_plain(e):
             cur = shape[m] if m < len(shape) else None
-            a, b = e["s"]
+            a, b = e["s"][0], e["s"][1]
             out.append(dict(s=[0 if a is None else a, cur if b is None else b]))
         else:
             out.append(e)
@@ -346,7 +383,8 @@ def dense_tags(op: str, shape: Sequence[int], key, rhs=None) -> List[str]:
         tags.append("adv-split")
     if op == "write":
         for m, e in enumerate(key["k"]):
-            if elem_kind(e) == "slice" and e["s"][1] is None and m < len(shape) and shape[m] == 1:
+            if (elem_kind(e) == "slice" and slice_plain(e) and e["s"][1] is None and m < len(shape)
+                    and shape[m] == 1):
                 tags.append("open-slice-singleton")
                 break
     return tags
@@ -414,6 +452,8 @@ def sparse_tags(op: str, shape: Sequence[int], key, rhs, stored_subs: np.ndarray
             tags.append("sprhs-order-growth")
         if _buggy_m_consulted_wrong(shape, key, rs):
             tags.append("sprhs-list-extent")
+        if any(elem_kind(e) == "slice" and not slice_plain(e) for e in key["k"]):
+            tags.append("sprhs-slice-form")
         ints = [(m, e) for m, e in enumerate(key["k"]) if is_int(e)]
         if (key.get("np") and ints) or (stored_shape is not None and any(
             e < 0 and m < len(stored_shape) and type(stored_shape[m]) is not int for m, e in ints
